@@ -2,3 +2,442 @@
 // SPDX-License-Identifier: Apache-2.0
 
 //! verification hook drivers: ack_manager
+//!
+//! Thin drivers around the crate-private `AckManager` and `TxPacketNumbers` taking plain
+//! integers (packet numbers, microsecond timestamps). They rely on `s2n-quic-core`'s `testing`
+//! feature for the no-op event publisher.
+
+use crate::{
+    ack::AckManager, contexts::WriteContext, processed_packet::ProcessedPacket,
+    space::TxPacketNumbers, transmission,
+};
+use core::time::Duration;
+use s2n_codec::EncoderValue;
+use s2n_quic_core::{
+    ack, connection, endpoint,
+    event::{self, testing::Publisher, IntoEvent},
+    frame::{
+        ack::AckRanges as AckRangesTrait, ack_elicitation::AckElicitation, Ack, FrameTrait,
+    },
+    inet::{DatagramInfo, ExplicitCongestionNotification},
+    packet::number::{PacketNumber, PacketNumberRange, PacketNumberSpace},
+    time::{timer::Provider as _, Timestamp},
+    transmission::interest::Provider as _,
+    varint::VarInt,
+};
+
+fn space_of(space: u8) -> PacketNumberSpace {
+    match space % 3 {
+        0 => PacketNumberSpace::Initial,
+        1 => PacketNumberSpace::Handshake,
+        _ => PacketNumberSpace::ApplicationData,
+    }
+}
+
+fn pn_of(space: PacketNumberSpace, value: u64) -> PacketNumber {
+    space.new_packet_number(VarInt::new(value).expect("packet numbers are below 2^62"))
+}
+
+fn ts(micros: u64) -> Timestamp {
+    // Safety: the harness uses a virtual clock counting microseconds
+    unsafe { Timestamp::from_duration(Duration::from_micros(micros)) }
+}
+
+fn micros(t: Timestamp) -> u64 {
+    // Safety: see `ts`
+    unsafe { t.as_duration() }.as_micros() as u64
+}
+
+pub fn constraint_of(v: u8) -> transmission::Constraint {
+    match v % 4 {
+        0 => transmission::Constraint::None,
+        1 => transmission::Constraint::RetransmissionOnly,
+        2 => transmission::Constraint::CongestionLimited,
+        _ => transmission::Constraint::AmplificationLimited,
+    }
+}
+
+pub fn mode_of(v: u8) -> transmission::Mode {
+    match v % 4 {
+        0 => transmission::Mode::Normal,
+        1 => transmission::Mode::LossRecoveryProbing,
+        2 => transmission::Mode::MtuProbing,
+        _ => transmission::Mode::PathValidationOnly,
+    }
+}
+
+/// What one packet assembly did with respect to the ACK manager
+#[derive(Debug, Default, Clone)]
+pub struct TxOutcome {
+    /// `on_transmit` returned true (an ACK frame was written and `on_transmit_complete` was called)
+    pub wrote_ack: bool,
+    /// the ranges of the ACK frame in the order the frame lists them
+    pub ranges: Vec<(u64, u64)>,
+    /// the ACK Delay field as encoded
+    pub ack_delay: u64,
+    /// ECN counts of the frame (ect0, ect1, ce)
+    pub ecn: Option<(u64, u64, u64)>,
+    /// a PING was added by `on_transmit_complete`
+    pub ping: bool,
+}
+
+/// A recording `WriteContext`
+struct Recorder {
+    now: Timestamp,
+    constraint: transmission::Constraint,
+    mode: transmission::Mode,
+    packet_number: PacketNumber,
+    ack_elicitation: AckElicitation,
+    ack_fits: bool,
+    ping_fits: bool,
+    outcome: TxOutcome,
+}
+
+impl WriteContext for Recorder {
+    fn current_time(&self) -> Timestamp {
+        self.now
+    }
+
+    fn transmission_constraint(&self) -> transmission::Constraint {
+        self.constraint
+    }
+
+    fn transmission_mode(&self) -> transmission::Mode {
+        self.mode
+    }
+
+    fn remaining_capacity(&self) -> usize {
+        1200
+    }
+
+    fn write_ack_frame<AckRanges: AckRangesTrait>(
+        &mut self,
+        ack_frame: &Ack<AckRanges>,
+    ) -> Option<PacketNumber> {
+        if !self.ack_fits {
+            return None;
+        }
+        self.outcome.ranges = ack_frame
+            .ack_ranges
+            .ack_ranges()
+            .map(|r| (r.start().as_u64(), r.end().as_u64()))
+            .collect();
+        self.outcome.ack_delay = ack_frame.ack_delay.as_u64();
+        self.outcome.ecn = ack_frame.ecn_counts.map(|c| {
+            (
+                c.ect_0_count.as_u64(),
+                c.ect_1_count.as_u64(),
+                c.ce_count.as_u64(),
+            )
+        });
+        // ACK frames are not ack-eliciting
+        Some(self.packet_number)
+    }
+
+    fn write_frame<Frame>(&mut self, frame: &Frame) -> Option<PacketNumber>
+    where
+        Frame: EncoderValue + FrameTrait,
+        for<'frame> &'frame Frame: IntoEvent<event::builder::Frame>,
+    {
+        // the ACK manager writes its ACK through `write_ack_frame`; the only other frame is PING
+        if !self.ping_fits {
+            return None;
+        }
+        self.outcome.ping = true;
+        self.ack_elicitation |= frame.ack_elicitation();
+        Some(self.packet_number)
+    }
+
+    fn write_fitted_frame<Frame>(&mut self, frame: &Frame) -> PacketNumber
+    where
+        Frame: EncoderValue + FrameTrait,
+        for<'frame> &'frame Frame: IntoEvent<event::builder::Frame>,
+    {
+        self.write_frame(frame).expect("frame fits")
+    }
+
+    fn write_frame_forced<Frame>(&mut self, frame: &Frame) -> Option<PacketNumber>
+    where
+        Frame: EncoderValue + FrameTrait,
+        for<'frame> &'frame Frame: IntoEvent<event::builder::Frame>,
+    {
+        self.write_frame(frame)
+    }
+
+    fn ack_elicitation(&self) -> AckElicitation {
+        self.ack_elicitation
+    }
+
+    fn packet_number(&self) -> PacketNumber {
+        self.packet_number
+    }
+
+    fn local_endpoint_type(&self) -> endpoint::Type {
+        endpoint::Type::Server
+    }
+
+    fn header_len(&self) -> usize {
+        0
+    }
+
+    fn tag_len(&self) -> usize {
+        0
+    }
+}
+
+/// Driver of one `AckManager`
+pub struct AckDriver {
+    space: PacketNumberSpace,
+    manager: AckManager,
+}
+
+impl AckDriver {
+    pub fn new(
+        space: u8,
+        max_ack_delay_micros: u64,
+        ack_delay_exponent: u8,
+        ack_elicitation_interval: u8,
+        ack_ranges_limit: u8,
+    ) -> Self {
+        let space = space_of(space);
+        let settings = ack::Settings {
+            max_ack_delay: Duration::from_micros(max_ack_delay_micros),
+            ack_delay_exponent,
+            ack_elicitation_interval,
+            ack_ranges_limit,
+        };
+        Self {
+            space,
+            manager: AckManager::new(space, settings),
+        }
+    }
+
+    /// `ack::Settings::default()` as (max_ack_delay micros, exponent, elicitation interval, ranges limit)
+    pub fn default_settings() -> (u64, u8, u8, u8) {
+        let s = ack::Settings::default();
+        (
+            s.max_ack_delay.as_micros() as u64,
+            s.ack_delay_exponent,
+            s.ack_elicitation_interval,
+            s.ack_ranges_limit,
+        )
+    }
+
+    /// `ack::Settings::EARLY` (Initial and Handshake spaces)
+    pub fn early_settings() -> (u64, u8, u8, u8) {
+        let s = ack::Settings::EARLY;
+        (
+            s.max_ack_delay.as_micros() as u64,
+            s.ack_delay_exponent,
+            s.ack_elicitation_interval,
+            s.ack_ranges_limit,
+        )
+    }
+
+    /// A received packet was authenticated and completely processed
+    pub fn on_processed_packet(
+        &mut self,
+        packet_number: u64,
+        ack_eliciting: bool,
+        now_micros: u64,
+        ecn: u8,
+        path_challenge_on_active_path: bool,
+    ) {
+        let ecn = match ecn % 4 {
+            0 => ExplicitCongestionNotification::NotEct,
+            1 => ExplicitCongestionNotification::Ect1,
+            2 => ExplicitCongestionNotification::Ect0,
+            _ => ExplicitCongestionNotification::Ce,
+        };
+        let datagram = DatagramInfo {
+            ecn,
+            payload_len: 1200,
+            timestamp: ts(now_micros),
+            destination_connection_id: connection::LocalId::try_from_bytes(&[1, 2, 3, 4])
+                .expect("valid id"),
+            destination_connection_id_classification: connection::id::Classification::Local,
+            source_connection_id: None,
+        };
+        let mut packet = ProcessedPacket::new(pn_of(self.space, packet_number), &datagram);
+        if ack_eliciting {
+            packet.ack_elicitation = AckElicitation::Eliciting;
+        }
+        packet.path_challenge_on_active_path = path_challenge_on_active_path;
+        let path = event::builder::Path {
+            local_addr: event::builder::SocketAddress::IpV4 {
+                ip: &[127, 0, 0, 1],
+                port: 1,
+            },
+            local_cid: event::builder::ConnectionId { bytes: &[1, 2, 3, 4] },
+            remote_addr: event::builder::SocketAddress::IpV4 {
+                ip: &[127, 0, 0, 1],
+                port: 2,
+            },
+            remote_cid: event::builder::ConnectionId { bytes: &[5, 6, 7, 8] },
+            id: 0,
+            is_active: true,
+        };
+        let mut publisher = Publisher::no_snapshot();
+        self.manager
+            .on_processed_packet(&packet, path, &mut publisher);
+    }
+
+    /// One packet is being assembled: `on_transmit`, and `on_transmit_complete` if that returned true
+    /// (as `transmission::*::Payload::on_transmit` does).
+    #[allow(clippy::too_many_arguments)]
+    pub fn transmit(
+        &mut self,
+        now_micros: u64,
+        constraint: u8,
+        mode: u8,
+        packet_number: u64,
+        other_frames_ack_eliciting: bool,
+        ack_fits: bool,
+        ping_fits: bool,
+    ) -> TxOutcome {
+        let mut context = Recorder {
+            now: ts(now_micros),
+            constraint: constraint_of(constraint),
+            mode: mode_of(mode),
+            packet_number: pn_of(self.space, packet_number),
+            ack_elicitation: AckElicitation::default(),
+            ack_fits,
+            ping_fits,
+            outcome: TxOutcome::default(),
+        };
+        let did_send_ack = self.manager.on_transmit(&mut context);
+        // the rest of the payload is written between the two calls
+        if other_frames_ack_eliciting {
+            context.ack_elicitation = AckElicitation::Eliciting;
+        }
+        if did_send_ack {
+            self.manager.on_transmit_complete(&mut context);
+        }
+        let mut outcome = context.outcome;
+        outcome.wrote_ack = did_send_ack;
+        outcome
+    }
+
+    pub fn on_packet_ack(&mut self, now_micros: u64, lo: u64, hi: u64) {
+        let range = PacketNumberRange::new(pn_of(self.space, lo), pn_of(self.space, hi));
+        self.manager.on_packet_ack(ts(now_micros), &range);
+    }
+
+    pub fn on_packet_loss(&mut self, lo: u64, hi: u64) {
+        let range = PacketNumberRange::new(pn_of(self.space, lo), pn_of(self.space, hi));
+        self.manager.on_packet_loss(&range);
+    }
+
+    pub fn on_timeout(&mut self, now_micros: u64) {
+        self.manager.on_timeout(ts(now_micros));
+    }
+
+    /// expiration of the ack delay timer in microseconds
+    pub fn timer(&self) -> Option<u64> {
+        self.manager.next_expiration().map(micros)
+    }
+
+    /// the manager asks for a packet to be sent (forced transmission interest)
+    pub fn is_active(&self) -> bool {
+        self.manager.has_transmission_interest()
+    }
+
+    pub fn largest_received_packet_number_acked(&self) -> u64 {
+        self.manager.largest_received_packet_number_acked().as_u64()
+    }
+}
+
+/// Driver of one `TxPacketNumbers` (application data space), including the packet number
+/// skipping performed by `ApplicationSpace::on_transmit`
+pub struct TxPnDriver {
+    tx: TxPacketNumbers,
+}
+
+impl Default for TxPnDriver {
+    fn default() -> Self {
+        Self::new()
+    }
+}
+
+impl TxPnDriver {
+    pub fn new() -> Self {
+        Self {
+            tx: TxPacketNumbers::new(PacketNumberSpace::ApplicationData, ts(1)),
+        }
+    }
+
+    pub fn next(&self) -> u64 {
+        self.tx.next().as_u64()
+    }
+
+    pub fn largest_sent_packet_number_acked(&self) -> u64 {
+        self.tx.largest_sent_packet_number_acked().as_u64()
+    }
+
+    pub fn should_skip_packet_number(&self) -> bool {
+        self.tx.should_skip_packet_number()
+    }
+
+    /// The packet number selection of `ApplicationSpace::on_transmit` followed by
+    /// `Transmission::finish` (`on_transmit`) and the recording of the skipped number.
+    /// Returns (packet number put on the wire or None if the packet was abandoned,
+    ///          number skipped for optimistic ack mitigation).
+    pub fn transmit(
+        &mut self,
+        requires_probe: bool,
+        skip_counter_is_zero: bool,
+        abandoned: bool,
+    ) -> (Option<u64>, Option<u64>) {
+        let mut packet_number = self.tx.next();
+        let mut skipped_pto = None;
+        let mut skipped_opt_ack = None;
+
+        if requires_probe && packet_number.as_u64() != 0 {
+            skipped_pto = Some(packet_number);
+            packet_number = packet_number.next().unwrap();
+        }
+
+        if skip_counter_is_zero && self.tx.should_skip_packet_number() {
+            if let Some(skip_packet_number) = skipped_pto {
+                skipped_opt_ack = Some(skip_packet_number);
+            } else {
+                skipped_opt_ack = Some(packet_number);
+                packet_number = packet_number.next().unwrap();
+            }
+        }
+
+        if abandoned {
+            // a `PacketEncodingError`: nothing is recorded
+            return (None, None);
+        }
+
+        self.tx.on_transmit(packet_number);
+
+        if let Some(skip_packet_number) = skipped_opt_ack {
+            self.tx.set_skip_packet_number(skip_packet_number);
+        }
+
+        (
+            Some(packet_number.as_u64()),
+            skipped_opt_ack.map(|pn| pn.as_u64()),
+        )
+    }
+
+    /// `on_transmit` of a packet `jump` numbers above the next one
+    pub fn transmit_at(&mut self, jump: u64) -> Option<u64> {
+        let value = self.tx.next().as_u64().checked_add(jump)?;
+        let value = VarInt::new(value).ok()?;
+        let packet_number = PacketNumberSpace::ApplicationData.new_packet_number(value);
+        self.tx.on_transmit(packet_number);
+        Some(packet_number.as_u64())
+    }
+
+    /// `on_packet_ack` with the acknowledged range `lo..=hi`; returns true when it is accepted
+    pub fn on_packet_ack(&mut self, lo: u64, hi: u64, lowest_tracking_packet_number: u64) -> bool {
+        let space = PacketNumberSpace::ApplicationData;
+        let range = PacketNumberRange::new(pn_of(space, lo), pn_of(space, hi));
+        self.tx
+            .on_packet_ack(ts(1), &range, pn_of(space, lowest_tracking_packet_number))
+            .is_ok()
+    }
+}
